@@ -16,14 +16,13 @@ pub fn write_record(file: &mut File, record: &SchemaRecord) -> Result<(), Schema
     let encoded =
         bincode::serialize(record).map_err(|e| SchemaError::SerializationFailed(e.to_string()))?;
 
-    file.write_all(&(encoded.len() as u32).to_le_bytes())
-        .map_err(|e| SchemaError::IoWriteFailed(e.to_string()))?;
-
-    let crc = compute_crc32(&encoded);
-    file.write_all(&crc.to_le_bytes())
-        .map_err(|e| SchemaError::IoWriteFailed(e.to_string()))?;
-
-    file.write_all(&encoded)
+    // One write per record: a failed or interrupted append must not leave a length and
+    // CRC without their body in front of the records appended later.
+    let mut buf = Vec::with_capacity(8 + encoded.len());
+    buf.extend_from_slice(&(encoded.len() as u32).to_le_bytes());
+    buf.extend_from_slice(&compute_crc32(&encoded).to_le_bytes());
+    buf.extend_from_slice(&encoded);
+    file.write_all(&buf)
         .map_err(|e| SchemaError::IoWriteFailed(e.to_string()))?;
 
     Ok(())
